@@ -289,6 +289,54 @@ def lexicase_part(find, rng, dl, quick, stats):
                         stats["exhaustive_cases"] += 1
 
 
+def boundary_and_duplicates_part(find, stats):
+    """(a) tournaments over populations that contain the best / worst representable fitness (+-inf): the winner must still be at
+    least as fit as every participant drawn; (b) lexicase on populations in which an Individual OBJECT occurs more than once: it
+    is never returned more often than the population contains it."""
+    inf = float("inf")
+    for values in ((inf, 0.0, 1.0), (0.0, inf, -inf, 2.0), (-inf, 1.0, 1.0), (inf, inf, 0.0)):
+        for minimize in (False, True):
+            rep = IntRep()
+            ff = TableFitness(list(values) + [0])
+            problem = SingleObjectiveProblem(ff, minimize)
+            tracker = single_tracker(problem)
+            inds = [Individual(rep.create_genotype(None), rep) for _ in values]
+            vals = {id(i): v for i, v in zip(inds, values)}
+            popobj = as_form(inds, "population", tracker)
+            for t in (2, 3):
+                for sd in range(6):
+                    stats["cases"] += 1
+                    try:
+                        tournament_once(find, NativeRandomSource(sd), inds, vals, problem, tracker, rep, t, True, len(values), "list", minimize, popobj)
+                    except LibraryFailure as ex:
+                        find.add("rt:C17:TournamentSelection.exception", f"TournamentSelection on values={list(values)}, minimize={minimize}: {ex}", (len(values),))
+    for pattern in ((0, 1, 0, 2), (0, 0, 1), (0, 1, 1, 1, 2)):
+        for epsilon in (False, True):
+            rep = IntRep()
+            distinct = max(pattern) + 1
+            ff = TableFitness([[0.0, 0.0, 0.0]] + [[float(i), float(3 - i), 1.0] for i in range(1, distinct)] + [[9.0, 9.0, 9.0]])
+            problem = MultiObjectiveProblem([True, True, True], ff)
+            tracker = multi_tracker(problem)
+            base = [Individual(rep.create_genotype(None), rep) for _ in range(distinct)]
+            pop = [base[i] for i in pattern]
+            for k in range(1, len(pop) + 1):
+                for sd in range(4):
+                    stats["cases"] += 1
+                    try:
+                        out = list(LexicaseSelection(epsilon=epsilon).apply(problem, tracker.evaluator, rep, NativeRandomSource(sd), list(pop), k, 1))
+                    except Exception as ex:  # noqa
+                        find.add("rt:C17:LexicaseSelection.exception", f"LexicaseSelection(epsilon={epsilon}) on a population with repeated objects (pattern {list(pattern)}), k={k}: raised {type(ex).__name__}: {str(ex)[:60]}", (len(pop), k))
+                        continue
+                    for b_ in base:
+                        have, got = sum(1 for x in pop if x is b_), sum(1 for x in out if x is b_)
+                        if got > have:
+                            find.add(
+                                "rt:C17:LexicaseSelection.more_copies_than_in_population",
+                                f"LexicaseSelection(epsilon={epsilon}) on a population in which objects repeat (pattern {list(pattern)}), k={k}, NativeRandomSource({sd}): an individual was returned {got} times but the population contains it {have} time(s)",
+                                (len(pop), k),
+                            )
+
+
 def tournament_reuse_part(find, rng, quick, stats):
     """ONE TournamentSelection object applied to many successive populations of new individuals (as in a GP run): whatever the
     step keeps between calls must not leak from one population into the next (earlier individuals are dropped, their
@@ -344,6 +392,7 @@ def run(tier: str, seed: int) -> dict:
     tournament_part(find, rng, Deadline(8 if quick else 100), quick, ts)
     lexicase_part(find, rng, Deadline(16 if quick else 130), quick, ls)
     tournament_reuse_part(find, rng, quick, ts)
+    boundary_and_duplicates_part(find, ls)
     samples = [
         f"tournament: {ts['cases']} configurations, {ts['runs']} draw outcomes, {ts['exhaustive_cases']} configurations with ALL outcomes",
         f"lexicase: {ls['cases']} configurations, {ls['runs']} draw outcomes, {ls['exhaustive_cases']} configurations with ALL outcomes",
